@@ -4,9 +4,9 @@
 // Request lines (shared with lean/Driver/C16.lean):
 //   sort <keys> <n> <vals> <xml-hex> <xsl-hex>
 //   sortu <keys> <n> <vals> <matrix> <xml-hex> <xsl-hex>          (same, text values are indices into a string table)
-//   coll <case-order 0|1|2> <lang|-> <utf16-hex>...                collation matrix of the strings, computed by the
-//                                                                  same ICUBridgeCollationCompareFunctor class the
-//                                                                  transformer installs; reply `mat <signs row-major>` (- 0 +)
+//   coll <case-order 0|1|2> <lang|-> <utf16-hex>...                collation matrix of the strings for ONE xsl:sort's
+//                                                                  (lang, case-order), computed with a fresh ICU collator
+//                                                                  (not through Xalan's bridge); reply `mat <signs row-major>`
 // Reply:
 //   res rc=<int> probes=<k:id:count,...|-> out=<result text, '\n' -> "\\n">      (rc 0)
 //   err rc=<int> msg=<last error, one line>
@@ -23,7 +23,9 @@
 
 #include <xalanc/Include/PlatformDefinitions.hpp>
 #include <xalanc/XalanTransformer/XalanTransformer.hpp>
-#include <xalanc/ICUBridge/ICUBridgeCollationCompareFunctor.hpp>
+#include <cstdlib>
+#include <unicode/coll.h>
+#include <unicode/locid.h>
 #include <xalanc/XPath/Function.hpp>
 #include <xalanc/XPath/XObjectFactory.hpp>
 #include <xalanc/XSLT/XSLTInputSource.hpp>
@@ -114,8 +116,6 @@ int main()
         transformer.installExternalFunction(XalanDOMString("urn:verif:c16"), XalanDOMString("probe"), FunctionProbe());
         std::ostringstream warnings;
         transformer.setWarningStream(&warnings);
-        // same class and same settings as XalanTransformer's constructor installs (XalanTransformer.cpp:126)
-        ICUBridgeCollationCompareFunctor collator(XalanMemMgrs::getDefaultXercesMemMgr(), true);
 
         std::string line;
         while (std::getline(std::cin, line))
@@ -146,20 +146,29 @@ int main()
                     strs.push_back(str);
                 }
                 if (!ok) { std::cout << "bad-request" << std::endl; continue; }
-                const XalanCollationServices::eCaseOrder co =
-                    w[1] == "1" ? XalanCollationServices::eUpperFirst :
-                    w[1] == "2" ? XalanCollationServices::eLowerFirst : XalanCollationServices::eDefault;
-                const XalanDOMString lang(w[2] == "-" ? "" : w[2].c_str());
+                // The oracle is ICU itself, not Xalan's bridge: a fresh collator for exactly this (lang, case-order),
+                // as the XSLT Recommendation describes the attributes of ONE xsl:sort.  lang "-" = the process default
+                // (LANG, as ICUBridgeCollationCompareFunctorImpl's constructor takes it).
+                UErrorCode status = U_ZERO_ERROR;
+                const char* const envLang = std::getenv("LANG");
+                const icu::Locale loc = w[2] == "-" ? (envLang ? icu::Locale(envLang) : icu::Locale::getDefault())
+                                                    : icu::Locale::createFromName(w[2].c_str());
+                icu::Collator* const coll = icu::Collator::createInstance(loc, status);
+                if (U_FAILURE(status) || coll == 0) { std::cout << "bad-request" << std::endl; continue; }
+                coll->setAttribute(UCOL_CASE_FIRST,
+                                   w[1] == "1" ? UCOL_UPPER_FIRST : w[1] == "2" ? UCOL_LOWER_FIRST : UCOL_DEFAULT, status);
                 std::cout << "mat ";
                 for (size_t i = 0; i < strs.size(); ++i)
                 {
                     for (size_t j = 0; j < strs.size(); ++j)
                     {
-                        const int r = lang.empty() ? collator(strs[i].c_str(), strs[j].c_str(), co)
-                                                   : collator(strs[i].c_str(), strs[j].c_str(), lang.c_str(), co);
+                        const int r = coll->compare(
+                            reinterpret_cast<const UChar*>(strs[i].c_str()), int32_t(strs[i].length()),
+                            reinterpret_cast<const UChar*>(strs[j].c_str()), int32_t(strs[j].length()));
                         std::cout << (r < 0 ? '-' : r > 0 ? '+' : '0');
                     }
                 }
+                delete coll;
                 std::cout << std::endl;
                 continue;
             }
